@@ -127,8 +127,8 @@ def dual_coeffs(f: PW, V, q=None):
         # any non-empty span inside [V[i], V[i+q+1]]
         j = next(j for j in range(i, i + q + 1) if V[j] < V[j + 1])
         a, b = V[j], V[j + 1]
-        tau = (a + b) / 2
-        pc = g.piece(a, b)
+        pc = next(x for x in g.pieces if a <= x[0] < b)  # f may have (removable) breaks inside a span of V
+        tau = (pc[0] + pc[1]) / 2
         psi = poly.from_roots_neg(V[i + 1:i + q + 1])
         vals = []
         for num in pc[2]:
